@@ -5,7 +5,9 @@ from props import common
 from props.common import Bounded, Failure
 
 PID = "C11"
-BOUNDED_ONLY = ("evaluate._dataset_rule", "evaluate._datatable_rule")   # path explosion in the frame proof; see DESIGN.md
+# these two have functional contracts in C19 (contracts/c19_eval.py) whose frame is "nothing that existed before the call is written":
+# C11 runs those very tasks (task_eval below) instead of a frame-only contract
+BOUNDED_ONLY = ("evaluate._dataset_rule", "evaluate._datatable_rule")
 
 
 def names():
@@ -22,6 +24,13 @@ def task(which):
     fs = c11_frames.install(w)
     f, con = fs[which]
     return Task(w, f, con, name=f"C11/{which}", max_paths=6000).run()
+
+
+def task_eval(which, shard=None, preload=None):
+    from props import C19
+    r = C19.task(which, shard=shard, preload=preload)
+    r.name = r.name.replace("C19/", "C11/frame-of:")
+    return r
 
 
 def deep_snapshot(roots):
@@ -129,13 +138,16 @@ def bounded(tier, seed):
 
 def main(tier, seed):
     t0 = time.time()
-    results = common.run_tasks([("props.C11", "task", {"which": n}) for n in names()], procs=16)
+    specs = [("props.C11", "task", {"which": n}) for n in names()]
+    specs.append(("props.C11", "task_eval", {"which": "_datatable_rule"}))
+    shards = [("props.C11", "task_eval", {"which": "_dataset_rule", "shard": [1, list(bits)]}) for bits in itertools.product((True, False), repeat=4)]
+    results = common.run_tasks(specs, procs=16) + common.run_sharded(shards, "C19._dataset_rule")
     b = bounded(tier, seed)
     return common.decide(PID, tier, seed, results, b, t0, "DESIGN.md §4 C11", extra_assumptions=[
         "frame obligations of the functions verified functionally elsewhere are discharged there and not repeated: validate.node/tree and the "
         "Rule validators (C01-C05: only the errs list is written), Node.is_equal (C18)",
         "Rule.child_insert_index / is_allowed_child: frame proved for an arbitrary rule (instance built by the real constructor, its child-name list "
         "replaced by an arbitrary list of strings)",
-        "bounded only (frame proof not attempted because of path explosion in long if-sequences): " + ", ".join(BOUNDED_ONLY),
+        "evaluate._dataset_rule / _datatable_rule: the frame obligations come from their functional contracts (the C19 tasks, run here too)",
         "A-escape, A-json: xml.sax.saxutils.escape and json.dumps read their argument and return new strings",
         "out-parameter lists (descendants, warnings) are not the children list of any node"])
